@@ -51,7 +51,7 @@ func vC02Body(k, i int) zcode.Bytes {
 	switch k {
 	case vC02String, vC02RecString:
 		c := verif.Byte("leaf")
-		verif.Assume(c >= 'a' && c <= 'z')
+		verif.Assume(c-'a' < 26)
 		leaf = zcode.Bytes{c}
 	default:
 		leaf = zed.EncodeInt(int64(i + 1))
@@ -109,6 +109,7 @@ const (
 // verif:bounds name "foo"; (T1,T2) in {({x:int8},{x:string}), ({x:string},{x:int8}), ({x:int8},{x:int16}), (int8,string), (string,{x:string}), ({x:int16},int8), ({x:int8},{x:int8})}; layouts: 3 top-level named values, 3 values {a:named}, one value {a:..,b:..,c:..}; persist regexp nil or /foo/; FormatRecord or Format; pretty 0 or 2; string leaves one symbolic letter a..z each, integer leaves the concrete numbers 1,2,3
 // verif:outside other names (quoting: C02-O3) and numbers (the digits: strconv); unions, enums, maps, arrays, nested typedefs inside a typedef; colour; more than 3 values
 // verif:unwind 64
+// verif:solver z3-new
 func VerifH_C02_O4_typedef_rebinding() {
 	pair := vC02Pairs[verif.Choose("types", len(vC02Pairs))]
 	layout := verif.Choose("layout", vC02NLayouts)
@@ -198,6 +199,9 @@ func VerifH_C02_O4_typedef_rebinding() {
 				}
 			}
 		}
+		if reg != "" {
+			verif.Reach("rebound-nonimplied-record")
+		}
 		ast, err := parser.ParseValue()
 		if err != nil || ast == nil {
 			verif.Assert(false, "typedef-text-unreadable"+reg)
@@ -215,9 +219,6 @@ func VerifH_C02_O4_typedef_rebinding() {
 		}
 		verif.Assert(vC02SameType(got.Type(), want.Type()), "typedef-type-changed"+reg)
 		verif.Assert(bytes.Equal(got.Bytes(), want.Bytes()), "typedef-value-changed"+reg)
-		if reg != "" {
-			verif.Reach("rebound-nonimplied-record")
-		}
 	}
 	// and nothing else follows
 	ast, err := parser.ParseValue()
@@ -333,6 +334,7 @@ func vC02ScanName(p *Parser, field bool) vC02NameResult {
 // verif:bounds the Lexer state is constructed in-package exactly as NewLexer does (buffer of ReadSize = 64 KiB, empty cursor) minus the two regexps; the lexer's buffer size is a constant, so the boundary is forced by the reader instead (the lexer asks its reader for more only when it must: io.ReadAtLeast(min) returns as soon as min bytes arrived): either the first Read ends at an arbitrary position cut in 0..len(text), or every Read returns at most 1, 2, 3 or 5 bytes.  name = c + "a" + R + "b" with c one symbolic ASCII letter and R one of U+00E9 (2 bytes), U+4E16 (3 bytes), U+1D4B3 (4 bytes), or name = c + "a" followed by U+2003; text = "{"+name+":1}" or "(="+name+")}"
 // verif:outside runes other than these four; quoted names (C02-O2); refill inside string literals and primitives (peekPrimitive needs the regexps); buffer growth beyond ReadSize; read errors other than EOF
 // verif:unwind 64
+// verif:solver z3-new
 func VerifH_C02_O5_lexer_refill() {
 	field := verif.Choose("kind", 2) == 0
 	c := verif.Byte("c")
